@@ -84,12 +84,13 @@ def _cases(draw):
         sched = draw(st.lists(st.integers(0, 11), max_size=120))
     delays = draw(st.lists(st.integers(0, 6), min_size=1, max_size=4))
     return {"n": n, "par": par, "max_tasks": mt, "fail": fails, "unpicklable": unp, "tolerate": tol, "use_run": use_run,
-            "schedule": sched, "delays": delays, "fail_kind": draw(st.integers(0, 7)),
+            "schedule": sched, "delays": delays, "fail_kind": draw(st.integers(0, 8)),
             "callback": ({"progress_logger": True, "raise_for": []} if (big or draw(st.integers(0, 7)) == 0) else
                          {"in_thread": draw(st.booleans()),
                           "raise_for": sorted(draw(st.sets(st.integers(0, max(0, n - 1)), max_size=2)))}
                          if (n and tol and not use_run and draw(st.integers(0, 3)) == 0) else None),
-            "gen_task": gen_task}
+            "gen_task": gen_task,
+            "partial_task": (not gen_task) and draw(st.integers(0, 5)) == 0}     # the task function is a functools.partial
 
 
 def strategy(tier):
@@ -173,7 +174,7 @@ def check(case):
         return _check_real(case)
     out = run_case(case["n"], case["par"], case["max_tasks"], case["fail"], case["tolerate"],
                    case["schedule"], case["delays"], use_run=case["use_run"], unpicklable_ids=case.get("unpicklable", ()),
-                   fail_kind=case.get("fail_kind", 0), callback=case.get("callback"), gen_task=bool(case.get("gen_task")))
+                   fail_kind=case.get("fail_kind", 0), callback=case.get("callback"), gen_task=bool(case.get("gen_task")), partial_task=bool(case.get("partial_task")))
     if (case.get("callback") or {}).get("progress_logger"):
         labels_cb = ["progress-logger-registered"]
     elif case.get("callback"):
